@@ -76,3 +76,6 @@ Definition x_aggregate (cars : list (Car (F:=float))) (total loco_mass : float) 
    point list (C03): every point has target <= limit *)
 Definition x_bp_target_le_limit (pts : list BPf) : list out :=
   [OZ 0; OB (forallb (fun p => PrimFloat.leb (bp_target p) (bp_limit p)) pts)].
+
+Definition x_ts_new (length ms mr mf t0 : float) (offset0 : option float) (v0 : float) : list out :=
+  OZ 0 :: ts_outs (ts_new length ms mr mf t0 offset0 v0).
